@@ -460,6 +460,14 @@ func readIni(contents io.Reader, filename string) (*ini, error) {
 		value := strings.TrimSpace(keyval[1])
 		quoted := false
 
+		if len(name) == 0 {
+			return nil, &IniError{
+				Message:    fmt.Sprintf("empty option name (%s)", line),
+				File:       filename,
+				LineNumber: lineno,
+			}
+		}
+
 		if len(value) != 0 && value[0] == '"' {
 			if v, err := strconv.Unquote(value); err == nil {
 				value = v
